@@ -131,9 +131,6 @@ def h_wif_import(ex, route):
     secret = ex.bytes('secret', 32)
     chk = ex.bytes('checksum', 4)
     body = ver + secret + (b'\x01' if comp else b'')
-    if not comp:
-        # a 37-byte payload whose last secret byte is 01 would read as compressed key of 31 bytes: excluded shape
-        ex.assume(secret[31] != 1)
     vers = wif_versions(nets)
     known_ver = s_or(*[ver[0] == v for v in vers])
     # version byte: every documented WIF version plus three undocumented representatives (a decoded string that starts
